@@ -17,6 +17,7 @@ package validation
 import (
 	"crypto/tls"
 	"fmt"
+	"net/url"
 	"strings"
 
 	apimachineryvalidation "k8s.io/apimachinery/pkg/api/validation"
@@ -72,6 +73,12 @@ func ValidateServers(servers []proxyv1alpha1.UpstreamClusterServer, fldPath *fie
 			allErrs = append(allErrs, field.Invalid(fldPath.Child("servers").Index(i), s, "endpoint must supply http(s) schema"))
 		} else {
 			schemes.Insert(scheme)
+		}
+		// the endpoint is used as the host of the rest config of the upstream
+		if u, err := url.Parse(servers[i].Endpoint); err != nil {
+			allErrs = append(allErrs, field.Invalid(fldPath.Child("servers").Index(i), s, "endpoint must be a valid url: "+err.Error()))
+		} else if len(scheme) > 0 && len(u.Host) == 0 {
+			allErrs = append(allErrs, field.Invalid(fldPath.Child("servers").Index(i), s, "endpoint must supply a host"))
 		}
 		upstreams.Insert(s.Endpoint)
 	}
